@@ -380,3 +380,54 @@ Proof.
     rewrite E. rewrite take_app_ge by exact P3. split; [exact P1|].
     rewrite zlen_app. unfold zlen at 2. lia.
 Qed.
+
+(* ---------- review items: the monitor-aware branch; Monitor o evaluate ---------- *)
+Lemma frag_ev_branches b nb m c :
+  ev_has_episode b nb = b /\ ev_monitor_branch m = m /\ ev_count_mon c = c + 1 /\ ev_count_nomon c = c + 1.
+Proof. unfold ev_has_episode, ev_monitor_branch, ev_count_mon, ev_count_nomon. repeat split; lia. Qed.
+
+(* the per-env step with the monitor-aware branch spelled with the regenerated tests and counters *)
+Lemma frag_ev_env_step_monitor target s c :
+  ev_env_step true target s c =
+  let '(r, l) := ev_acc (e_r s) (e_l s) (c_r c) in
+  if ev_under_quota (e_count s) target then
+    if ev_done (c_done c) then
+      let '(z1, z2) := ev_restart in
+      if ev_monitor_branch true then
+        (if ev_has_episode (match c_ep c with Some _ => true | None => false end) (match c_ep c with Some _ => false | None => true end)
+         then match c_ep c with Some ep => (mk_e (ev_count_mon (e_count s)) z1 z2, [ep]) | None => (mk_e (e_count s) z1 z2, []) end
+         else (mk_e (e_count s) z1 z2, []))
+      else (mk_e (ev_count_nomon (e_count s)) z1 z2, [(r, l)])
+    else (mk_e (e_count s) r l, [])
+  else (mk_e (e_count s) r l, []).
+Proof.
+  rewrite frag_ev_env_step. unfold ev_acc, ev_done, ev_restart, ev_monitor_branch, ev_has_episode, ev_count_mon.
+  destruct (ev_under_quota (e_count s) target); [|reflexivity].
+  destruct (c_done c); [|reflexivity]. destruct (c_ep c); reflexivity.
+Qed.
+
+(* under a monitor a "done" without an episode entry (a lost life) ends nothing: not counted, nothing appended *)
+Lemma life_loss_not_counted target s c : c_done c = true -> c_ep c = None ->
+  snd (ev_env_step true target s c) = [] /\ e_count (fst (ev_env_step true target s c)) = e_count s.
+Proof.
+  intros Hd He. unfold ev_env_step. rewrite Hd, He. destruct (under_quota (e_count s) target); split; reflexivity.
+Qed.
+
+(* Monitor o evaluate: when the entries of a column are what the monitor accumulator reports at the real ends, the
+   episodes evaluate_policy reads off the infos are the true (sum, count) between REAL ends - lost lives in between
+   change nothing *)
+Lemma episodes_monitor_are_true col : forall a cr cl,
+  mon_consistent a col = true ->
+  episodes_from true cr cl (map fst col) = true_episodes (v_ret a) (v_len a) col.
+Proof.
+  induction col as [|[c real] col IH]; intros a cr cl H; [reflexivity|].
+  cbn [mon_consistent] in H. unfold vm_env_step in H. cbn [map fst episodes_from true_episodes].
+  destruct real.
+  - apply andb_true_iff in H as [H Hrest]. apply andb_true_iff in H as [He Hd]. cbn [implb] in Hd. rewrite Hd.
+    destruct (c_ep c) as [[er el]|]; [|discriminate]. cbn [fst snd vm_add v_ret v_len] in He.
+    apply andb_true_iff in He as [E1 E2]. apply Z.eqb_eq in E1, E2. subst.
+    cbn [app]. f_equal. apply (IH v0 0 0 Hrest).
+  - apply andb_true_iff in H as [H Hrest]. apply andb_true_iff in H as [He _].
+    destruct (c_ep c); [discriminate|].
+    destruct (c_done c); cbn [app]; apply (IH (vm_add a (c_r c))); exact Hrest.
+Qed.
